@@ -125,6 +125,11 @@ def build(kind, shape, atoms):
     if s == 'pair':
         return [at(shape['x']), at(shape['y'])]
     if kind == 'listnpy':
+        if s == 'list-of-list':
+            import numpy as np
+            # more than ten arrays, all different: the order must survive storage (files 0.npy ... 11.npy)
+            return [np.append(np.asarray(at(shape['x'])).ravel()[:1], i).astype(np.asarray(at(shape['x'])).dtype) if
+                    np.asarray(at(shape['x'])).dtype.kind in 'iuf' else np.array([i]) for i in range(12)]
         return None
     if s == 'empty-map':
         return {} if kind == 'json' else [{}]
